@@ -27,6 +27,13 @@ def motl_obj(prog, cls="cryomotl.Motl", **kw):
     return Obj(cls, {"df": motl_frame(prog, **kw)})
 
 
+def typed(v, kind):
+    """say what kind of Python value a symbolic argument is ('ndarray', 'list', 'str', 'path', 'DataFrame', ...): isinstance tests on it
+    are then decided wherever the value travels (see libcalls.isinstance_)"""
+    v.pykind = kind
+    return v
+
+
 def P(name, space=None):
     """a symbolic parameter: a value the caller passes (so it is not None -- `if p is None: p = <default>` keeps it)"""
     v = Val(sym(name), space=space)
@@ -181,11 +188,42 @@ def assume_map(mapping, prog=None):
                 rename_cache[fn] = m_
                 used.add(text)
                 return (v != (kpar != tpar)) if isinstance(v, bool) else v
+        # the configuration says what kind of value a parameter holds (`isinstance(x, np.ndarray)`: True): a further type test on the
+        # same parameter for a kind that excludes it is decided too (an array is not a path, a list, a table, ...)
+        if isinstance(node, ast.Call) and isinstance(node.func, ast.Name) and node.func.id == "isinstance" and len(node.args) == 2 \
+                and isinstance(node.args[0], ast.Name):
+            asked = _kinds_of(node.args[1])
+            if asked is not None:
+                for fnq, text, knode, v, kpar, ktext in keys:
+                    if v is not True or kpar or not (isinstance(knode, ast.Call) and isinstance(knode.func, ast.Name) and knode.func.id == "isinstance"
+                                                     and len(knode.args) == 2 and isinstance(knode.args[0], ast.Name) and knode.args[0].id == node.args[0].id):
+                        continue
+                    if fnq is not None and fnq != fn:
+                        continue
+                    have = _kinds_of(knode.args[1])
+                    if have is not None and len(have) == 1 and not (asked & have) and not (asked & {"object"}):
+                        r_ = False
+                        return r_ != tpar
         return None
 
     f.used = used
     f.keys = [k[1] for k in keys]
     return f
+
+
+_DISJOINT_KINDS = {"ndarray": "ndarray", "list": "list", "tuple": "tuple", "str": "str", "PathLike": "path", "Path": "path", "PurePath": "path", "DataFrame": "DataFrame",
+                   "Series": "Series", "Index": "Index", "dict": "dict", "range": "range", "bytes": "bytes", "set": "set"}
+
+
+def _kinds_of(n):
+    """the mutually exclusive value kinds named in the class argument of an isinstance test; None when a class outside the table is named"""
+    out = set()
+    for c in (n.elts if isinstance(n, ast.Tuple) else [n]):
+        nm = c.attr if isinstance(c, ast.Attribute) else c.id if isinstance(c, ast.Name) else None
+        if nm not in _DISJOINT_KINDS:
+            return None
+        out.add(_DISJOINT_KINDS[nm])
+    return out
 
 
 def col(frame, name):
